@@ -70,3 +70,8 @@ pub assume_specification<T, U, F: FnOnce(T) -> U>[Option::<T>::map_or](o: Option
     ensures
         o is None ==> r == default,
         o matches Some(t) ==> f.ensures((t,), r);
+
+pub assume_specification<T>[Poll::<T>::is_pending](p: &Poll<T>) -> (r: bool)
+    ensures r == (*p is Pending);
+pub assume_specification<T>[Poll::<T>::is_ready](p: &Poll<T>) -> (r: bool)
+    ensures r == (*p is Ready);
